@@ -16,7 +16,7 @@ import os
 
 from symx import core, env, symnp, units
 from symx.core import z3, SN
-from symx.framework import new_result, VCSink, fill_explorer
+from symx.framework import new_result, VCSink, fill_explorer, add_witness
 from checks import groupa
 from checks.groupa import NL
 
@@ -265,6 +265,8 @@ def run_shape(shape, tier, focus="C02"):
                 sink.check(path, "user_file_untouched", core.SB(z3.BoolVal(_user_file_ok(info))), site=shape["mode"], describe=desc)
             else:
                 _c06_claims(sink, path, shape, info, rows, lps, lls, kept, ranks, desc, logprobs, all_lp)
+            if ex.n_paths % 3 == 1:
+                add_witness(res, path, desc, site=shape["mode"])
             r, _, _ = path.check(core.SB(z3.BoolVal(False)))
             twin = twin or r == "sat"
         finally:
